@@ -65,6 +65,42 @@ def run(chk):
     cases = [("physical", qed, nf) for qed in (False, True) for nf in (3, 4, 5)]
     cases += [("matching", qed, nf) for qed in (False, True) for nf in (3, 4)]
     pmap(chk, _case, cases, jobs=10)
+    # the product argument needs the factors of a path to be exactly those label sets: every segment of a path between nf0 and nf flavours
+    # runs with at most max(nf0, nf) flavours, and every matching on it (upward or downward) is the one of a quark that the path does
+    # (de)activate - never of a heavier one
+    import itertools
+    from fractions import Fraction
+
+    src = load()
+    pe = PE(src)
+    fmp = src.func("eko.matchings.Atlas.matched_path")
+    pts = [Fraction(x) for x in (5, 10, 15, 20, 25, 30, 35)]
+    n_paths = 0
+    bad = None
+    for mu0, nf0, muf, nff in itertools.product(pts, (3, 4, 5), pts, (3, 4, 5)):
+        atlas = pe.instantiate("eko.matchings.Atlas", [[10, 20, 30], (mu0, nf0)])
+        try:
+            blocks = pe.apply(pe.getattr(atlas, "matched_path"), [(muf, nff)], {})
+        except PERaise as e:
+            bad = bad or (f"origin=({mu0},{nf0}), target=({muf},{nff})", f"raises {e}")
+            continue
+        n_paths += 1
+        top = max(nf0, nff)
+        low = min(nf0, nff)
+        for b in blocks:
+            if b.cls.node.name == "Segment":
+                if not low <= pe.getattr(b, "nf") <= top:
+                    bad = bad or (f"origin=({mu0},{nf0}), target=({muf},{nff})", f"a segment runs with {pe.getattr(b, 'nf')} flavours")
+            else:
+                hq = pe.getattr(b, "hq")
+                if not low + 1 <= hq <= top:
+                    bad = bad or (f"origin=({mu0},{nf0}), target=({muf},{nff})",
+                                  f"the path contains the {'inverse ' if pe.getattr(b, 'inverse') else ''}matching of quark {hq}")
+    chk.decide(bad is None, "path-factors-leave-the-inactive-quarks-alone", fmp.qname,
+               f"{bad[0] if bad else ''}: {bad[1] if bad else ''}, although the path only connects {'' if not bad else ''}flavour numbers between its end "
+               f"points: the matching of a quark that is never active gives that quark's distributions non-trivial blocks", where=fmp.where,
+               detail=f"{n_paths} paths", how="exhaustive PE of Atlas.matched_path")
+    chk.floor("paths", n_paths, 400)
     chk.floor("configurations", len(cases), 10)
     chk.note(instances=len(cases), files=["src/eko/evolution_operator/physical.py", "src/eko/evolution_operator/matching_condition.py",
                                           "src/eko/member.py", "src/eko/evolution_operator/flavors.py"])
